@@ -4,7 +4,9 @@ import (
 	"regexp"
 	"time"
 
+	"github.com/scrapli/scrapligo/channel"
 	"github.com/scrapli/scrapligo/driver/options"
+	"github.com/scrapli/scrapligo/transport"
 
 	"github.com/scrapli/scrapligo/util"
 )
@@ -37,8 +39,28 @@ const (
 	transportSystemOpenArgs = "transport-system-open-args"
 )
 
-func noopOption(_ interface{}) error {
-	return util.ErrIgnoredOption
+// withAuthBypassOff and withAuthStrictKeyOn set the value explicitly (rather than doing nothing)
+// so that "the later option wins" also holds when a setting is named more than once.
+func withAuthBypassOff(o interface{}) error {
+	c, ok := o.(*channel.Channel)
+	if !ok {
+		return util.ErrIgnoredOption
+	}
+
+	c.AuthBypass = false
+
+	return nil
+}
+
+func withAuthStrictKeyOn(o interface{}) error {
+	a, ok := o.(*transport.SSHArgs)
+	if !ok {
+		return util.ErrIgnoredOption
+	}
+
+	a.StrictKey = true
+
+	return nil
 }
 
 type optionDefinition struct {
@@ -64,7 +86,7 @@ func (o *optionDefinitions) asOptions() []util.Option { //nolint: gocyclo,gocogn
 			// historically a flag (any value, or none, turns bypass on); an explicit boolean
 			// false now leaves it off
 			if boolVal, ok := opt.Value.(bool); ok && !boolVal {
-				opts[i] = noopOption
+				opts[i] = withAuthBypassOff
 			} else {
 				opts[i] = options.WithAuthBypass()
 			}
@@ -72,7 +94,7 @@ func (o *optionDefinitions) asOptions() []util.Option { //nolint: gocyclo,gocogn
 			// historically a flag (any value, or none, turns strict key checking *off*); an
 			// explicit boolean true now keeps strict key checking on
 			if boolVal, ok := opt.Value.(bool); ok && boolVal {
-				opts[i] = noopOption
+				opts[i] = withAuthStrictKeyOn
 			} else {
 				opts[i] = options.WithAuthNoStrictKey()
 			}
